@@ -174,15 +174,15 @@ Proof. induction t as [s v|h|a IHa b IHb]; cbn [no_hidden Taproot.node_of height
   - destruct N.
   - destruct N as [Na Nb]. destruct (IHa Na) as (la & Ia & Ea). destruct (IHb Nb) as (lb & Ib & Eb).
     unfold combine_tot. cbn [n_leaves]. destruct (Nat.max_spec (height a) (height b)) as [[_ ->]|[_ ->]].
-    + exists (snoc (n_hash (node_of a)) lb). split; [apply in_or_app; left; now apply in_map|]. cbn [snoc l_branch]. rewrite app_length. cbn [length]. lia.
-    + exists (snoc (n_hash (node_of b)) la). split; [apply in_or_app; right; now apply in_map|]. cbn [snoc l_branch]. rewrite app_length. cbn [length]. lia. Qed.
+    + exists (snoc (n_hash (node_of a)) lb). split; [apply in_or_app; right; now apply in_map|]. cbn [snoc l_branch]. rewrite app_length. cbn [length]. lia.
+    + exists (snoc (n_hash (node_of b)) la). split; [apply in_or_app; left; now apply in_map|]. cbn [snoc l_branch]. rewrite app_length. cbn [length]. lia. Qed.
 Definition tree_inv (h : list (N * node)) : Prop :=
   Forall (fun e => exists t, snd e = node_of t /\ no_hidden t /\ (height t <= MAXD)%nat) h.
 Lemma tree_perm h h' : Permutation h h' -> tree_inv h -> tree_inv h'.
 Proof. intros P. apply Permutation_Forall, P. Qed.
 Lemma tree_step e1 e2 r c : tree_inv (e1 :: e2 :: r) -> combine (snd e1) (snd e2) = Ok c -> tree_inv ((sat_add (fst e1) (fst e2), c) :: r).
 Proof. intros F E. inversion F as [|? ? (t1 & E1 & N1 & H1) F']; subst. inversion F' as [|? ? (t2 & E2 & N2 & H2) Fr]; subst.
-  constructor; [|assumption]. cbn [snd]. apply combine_spec in E as [-> B]. exists (Node t2 t1). rewrite E1, E2. split; [reflexivity|]. split; [cbn; auto|].
+  constructor; [|assumption]. cbn [snd]. apply combine_spec in E as [-> B]. exists (Node t1 t2). rewrite E1, E2. split; [reflexivity|]. split; [cbn; auto|].
   apply Forall_app in B as [B1 B2]. rewrite Forall_forall in B1, B2. rewrite E1 in B1. rewrite E2 in B2.
   destruct (deepest_leaf t1 N1) as (l1 & I1 & L1). destruct (deepest_leaf t2 N2) as (l2 & I2 & L2).
   specialize (B1 l1 I1). specialize (B2 l2 I2). cbn [height]. lia. Qed.
@@ -209,8 +209,8 @@ Proof. unfold with_huffman_tree. destruct (huff_node Hleaf Hbranch ws) as [n| |]
   split; [rewrite build_accepts by assumption; exact F|].
   destruct (huff_node_shape Hleaf Hbranch ws) as [(n' & E' & K & _ & B)|[[_ E']|[_ E']]]; rewrite E in E'; try discriminate.
   inversion E'; subst n'. unfold keys in K. rewrite node_of_leaves in K, B. split.
-  - rewrite <- K. apply Permutation_map, Permutation_rev.
-  - apply Forall_rev in B. rewrite rev_involutive in B. eapply Forall_impl; [|exact B]. cbn. tauto. Qed.
+  - exact K.
+  - eapply Forall_impl; [|exact B]. cbn. tauto. Qed.
 (* it never panics inside the Huffman loop, and refuses only the empty list and trees deeper than 128 *)
 Theorem with_huffman_outcomes P ws :
   match with_huffman_tree Hleaf Hbranch Htweak scalar_ok tweak P ws with
